@@ -15,8 +15,8 @@ def run():
     jobs = [(variant, s, fmt) for variant in (0, 1) for s in seeds for fmt in ("black", "none", "cmd")]
     results = pool.parallel_map(dr.run_one, jobs)
     for r in results:
-        chk.count(len(dr.VALUES))
-    for k, v in enumerate(dr.VALUES):
+        chk.count(dr.NV)
+    for k in range(dr.NV):
         for fmt in ("black", "none", "cmd"):
             chk.nontrivial.add("%d|%s" % (k, fmt))
     chk.sample({"value": dr.VALUES[11][1], "other_construction": dr.VALUES[11][2], "class": dr.VALUES[11][0],
@@ -28,9 +28,11 @@ def run():
     chk.assumptions += ["separate interpreters per (PYTHONHASHSEED, construction variant, formatter); `black missing` is a "
                         "shadowing package whose import fails; format-command = cat",
                         "20 values: sets / frozensets of totally ordered, mixed (not orderable) and partially ordered "
-                        "(frozensets) elements, nested in dicts / lists / tuples, dicts built in different ways"]
+                        "(frozensets) elements, nested in dicts / lists / tuples, dicts built in different ways",
+                        "%d values that are fixed into an existing snapshot (new dict entries appended / flushed in front of a "
+                        "known key, sets replaced, list elements inserted)" % len(dr.FIXES)]
     return chk.finish(
         rule="TLC checks that the written order of set elements does not depend on the iteration order for every element "
              "class of spec/ISCodeGen.tla; %d values x 2 construction variants x %d hash seeds x 3 formatter configurations "
-             "are created in separate interpreters; per value and formatter all texts must be identical, across "
-             "formatters the syntax tree must be identical; distinct = (value, formatter)" % (len(dr.VALUES), len(seeds)))
+             "(and %d values fixed into an existing snapshot) are created in separate interpreters; per value and formatter all texts must be identical, across "
+             "formatters the syntax tree must be identical; distinct = (value, formatter)" % (len(dr.VALUES), len(seeds), len(dr.FIXES)))
